@@ -109,19 +109,28 @@ _ACTIONS = None
 
 def _expand(job):
     """Replay `hist` from the cold state once per action, apply the action, compare, fingerprint."""
-    tier, hist, refs = job
+    tier, hist, refs = job[:3]
+    shortcut = job[3] if len(job) > 3 else True
     global _ACTIONS
     if _ACTIONS is None or _ACTIONS[0] != tier:
         _ACTIONS = (tier, history_actions(tier))
     acts = _ACTIONS[1]
     out = []
+    fresh = False
+    fp_here = None
     for ai, (name, fn) in enumerate(acts):
-        modstate.reset("cold")
-        for h in hist:
-            W.run_item(acts[h][1])
+        if not fresh:
+            modstate.reset("cold")
+            for h in hist:
+                W.run_item(acts[h][1])
+            fp_here = modstate.fingerprint()
+            fresh = True
         r = _digest(W.run_item(fn))
         fp = modstate.fingerprint()
         out.append((ai, r == refs[name], fp, r))
+        # an action that leaves the canonical state unchanged is a self-loop: the next action may start from here
+        # (same assumption as state merging: equal fingerprints have equal futures); otherwise replay the history
+        fresh = shortcut and fp == fp_here
     return out
 
 
@@ -163,7 +172,7 @@ def history_engine(rep, tier):
     L = 2 if tier == "quick" else 3
     tree = [h for l in range(1, L) for h in product(range(len(acts)), repeat=l)]
     tcount = 0
-    for job, res in pmap(_expand, [(tier, h, refs) for h in tree]):
+    for job, res in pmap(_expand, [(tier, h, refs, False) for h in tree]):  # no fingerprint-based shortcut here
         for ai, ok, fp, r in res:
             tcount += 1
             if not ok:
